@@ -41,6 +41,20 @@ func (w *World) monitorInbound() {
 			got = append(got, d)
 		}
 	}
+	// whatever happens to the connection: content that ReadAll hands out
+	// without an error is the content of a PUBLISH the broker sent
+	for _, d := range got {
+		if !d.Big || d.BigErr != nil || d.BigBody == nil {
+			continue
+		}
+		ok := false
+		for _, p := range sent {
+			ok = ok || p.Topic == d.BigTopic && bytes.Equal(p.Body, d.BigBody)
+		}
+		if !ok {
+			w.Violate("C06", "bigmessage-content", "ReadAll of BigMessage{Topic:%q Size:%d} returned %d bytes without an error; no PUBLISH with that topic has this content", d.BigTopic, d.BigSize, len(d.BigBody))
+		}
+	}
 	lost := len(w.conns) > 1
 	for i, d := range got {
 		if i >= len(sent) {
